@@ -64,6 +64,8 @@ structure St where
   hsAck : Bool := false
   confirmed : Bool := false
   aaLimit : Bool := true
+  disc0 : Bool := false        -- discarded_epochs[Initial]
+  disc1 : Bool := false        -- discarded_epochs[Handshake]
 deriving Repr, Inhabited
 
 /-- float-derived inputs, read from the implementation before (`0`) and after (`1`) the operation -/
@@ -188,22 +190,22 @@ def trimFront : List Pkt → List Pkt
   | p :: ps => if p.st == PSt.A || p.st == PSt.R then trimFront ps else p :: ps
 
 /-- the filter/map pass of `detect_lost_packets`: new list, lost `(idx, pkt)`, new loss_time -/
-def lossWalk (lostSentTime ld largestIndex : Nat) : List Pkt → Nat → Option Nat →
+def lossWalk (lostSentTime ld largestIndex la : Nat) : List Pkt → Nat → Option Nat →
     List Pkt × List (Nat × Pkt) × Option Nat
   | [], _, lt => ([], [], lt)
   | p :: ps, idx, lt =>
-    if p.st == PSt.I then
+    if p.st == PSt.I && p.pn ≤ la then
       if p.ts < lostSentTime || largestIndex ≥ idx + packetThreshold then
         let p' := { p with st := PSt.R }
-        let (ps', lost, lt') := lossWalk lostSentTime ld largestIndex ps (idx + 1) lt
+        let (ps', lost, lt') := lossWalk lostSentTime ld largestIndex la ps (idx + 1) lt
         (p' :: ps', (idx, p') :: lost, lt')
       else
         let time := p.ts + ld
         let lt1 := match lt with | some t => some (min t time) | none => some time
-        let (ps', lost, lt') := lossWalk lostSentTime ld largestIndex ps (idx + 1) lt1
+        let (ps', lost, lt') := lossWalk lostSentTime ld largestIndex la ps (idx + 1) lt1
         (p :: ps', lost, lt')
     else
-      let (ps', lost, lt') := lossWalk lostSentTime ld largestIndex ps (idx + 1) lt
+      let (ps', lost, lt') := lossWalk lostSentTime ld largestIndex la ps (idx + 1) lt
       (p :: ps', lost, lt')
 
 /-- the `try_fold` computing `persistent_lost` -/
@@ -216,15 +218,22 @@ def persistentFold : List Nat → Option Nat → Nat → Bool
     if lostCount + 1 ≥ persistentLossThreshold then true
     else persistentFold rest (some idx) lostCount
 
-/-- `PacketSpace::detect_lost_packets`: returns the lost packet numbers -/
-def detectLost (s : St) (e : Nat) (ld : Nat) : Except String (St × List Nat) :=
+/-- `PacketSpace::detect_lost_packets` once a largest acknowledged number `la` is known -/
+def detectLostLa (s : St) (e : Nat) (ld la : Nat) : Except String (St × List Nat) :=
   let sp := getSp s e
-  let w := lossWalk (s.now - ld - sp.mad) ld (bsearch sp.sent (sp.la.getD 0)) sp.sent 0 none
+  let w := lossWalk (s.now - ld - sp.mad) ld (bsearch sp.sent la) la sp.sent 0 none
   let s1 := setSp s e { sp with sent := w.1, lt := w.2.2 }
   if w.2.1.isEmpty then .ok (s1, []) else
   match onPacketsLost s1 (w.2.1.map (·.2)) (persistentFold (w.2.1.map (·.1)) none 0) with
   | .error err => .error err
   | .ok s2 => .ok (s2, w.2.1.map (·.2.pn))
+
+/-- `PacketSpace::detect_lost_packets`: returns the lost packet numbers; before the first acknowledgement
+nothing is lost (`loss_time` is still reset) -/
+def detectLost (s : St) (e : Nat) (ld : Nat) : Except String (St × List Nat) :=
+  match (getSp s e).la with
+  | none => .ok (setSp s e { getSp s e with lt := none }, [])
+  | some la => detectLostLa s e ld la
 
 /-! ## CongestionController -/
 
@@ -232,7 +241,7 @@ def peerCompleted (s : St) : Bool := s.server || s.hsAck || s.confirmed
 
 /-- `Rtt::base_pto` (integer `Duration` arithmetic; `1 << pto_count` is `u32`) -/
 def basePto (srtt rttvar n : Nat) : Nat :=
-  srtt + max (rttvarFactor * rttvar) (granularityMs * 1000000) * 2 ^ n
+  (srtt + max (rttvarFactor * rttvar) (granularityMs * 1000000)) * 2 ^ n
 
 /-- `get_loss_time_and_epoch` (`min_by_key` keeps the first of equal minima) -/
 def lossTimeAndEpoch (s : St) : Option (Nat × Nat) :=
@@ -305,11 +314,21 @@ def onTimeout (s : St) (i : Inp) : Except String (St × List (Nat × List Nat)) 
     (setTimer (bumpPto s1) i.srtt1 i.rttvar1).bind fun s2 =>
     .ok (s2, [])
 
-/-- state after `PacketSpace::discard` and the resets of `discard_epoch`, before `set_loss_detection_timer` -/
+def isDiscarded (s : St) : Nat → Bool
+  | 0 => s.disc0
+  | _ => s.disc1
+
+def markDiscarded (s : St) : Nat → St
+  | 0 => { s with disc0 := true }
+  | _ => { s with disc1 := true }
+
+/-- state after `PacketSpace::discard` and the resets of `discard_epoch`, before `set_loss_detection_timer`:
+`pto_count` is reset only the first time the space is discarded -/
 def discardReset (s : St) (e : Nat) (bytes : Nat) : St :=
   let sp := getSp s e
   let s1 := setSp { s with bytes := bytes } e { sp with sent := [], tl := none, lt := none }
-  { s1 with timer := none, pto := 0 }
+  let s2 := { s1 with timer := none }
+  if isDiscarded s e then s2 else markDiscarded { s2 with pto := 0 } e
 
 /-- `PacketSpace::discard` + `CongestionController::discard_epoch` -/
 def discardEpoch (s : St) (e : Nat) (srtt rttvar : Nat) : Except String St :=
@@ -318,24 +337,22 @@ def discardEpoch (s : St) (e : Nat) (srtt rttvar : Nat) : Except String St :=
   setTimer (discardReset s e bytes) srtt rttvar
 
 /-- the `if in_flight { … }` block of `on_packet_sent` before `set_loss_detection_timer` -/
-def sentInflight (s : St) (ld : Nat) (e : Nat) (elic : Bool) (size : Nat) : St :=
+def sentInflight (s : St) (e : Nat) (elic : Bool) (size : Nat) : St :=
   let sp := getSp s e
   let sp := if elic then { sp with tl := some s.now, need := sp.need - 1 } else sp
-  let sp := match sp.lt with
-    | some _ => sp
-    | none => { sp with lt := some (s.now + ld) }
   setSp { s with bytes := s.bytes + size } e sp
 
 def pushPkt (s : St) (e : Nat) (pkt : Pkt) : St :=
   let sp := getSp s e
   setSp s e { sp with sent := sp.sent ++ [pkt] }
 
-/-- `ArcCC::on_pkt_sent` = `on_packet_sent` + the client's `discard_epoch(Initial)` on every Handshake packet -/
+/-- `ArcCC::on_pkt_sent` = `on_packet_sent` (the packet is recorded, then the timer set) + the client's
+`discard_epoch(Initial)` on every Handshake packet -/
 def onPktSent (s : St) (i : Inp) (e pn : Nat) (elic infl : Bool) (size : Nat) : Except String St :=
   let pkt : Pkt := { pn := pn, ts := s.now, elic := elic, cc := infl, size := size, st := PSt.I }
-  (if infl then setTimer (sentInflight s i.ld0 e elic size) i.srtt0 i.rttvar0 else .ok s).bind fun s1 =>
-  let s2 := pushPkt s1 e pkt
-  if e == 1 && !s2.server then discardEpoch s2 0 i.srtt1 i.rttvar1 else .ok s2
+  let s2 := pushPkt (if infl then sentInflight s e elic size else s) e pkt
+  (if infl then setTimer s2 i.srtt0 i.rttvar0 else .ok s2).bind fun s3 =>
+  if e == 1 && !s3.server then discardEpoch s3 0 i.srtt1 i.rttvar1 else .ok s3
 
 /-- an ACK frame as the harness sends it: largest, descending inclusive ranges `(lo, hi)`, optional ECN-CE count -/
 structure Ack where
@@ -397,7 +414,7 @@ def doTick (s : St) (i : Inp) : Except String (St × List (Nat × List Nat) × O
 
 /-- `ArcCC::on_pkt_rcvd` (ack-eliciting) → `on_datagram_rcvd` -/
 def onDatagramRcvd (s : St) (i : Inp) : Except String (St × List (Nat × List Nat)) :=
-  if s.aaLimit then
+  if s.aaLimit || s.timer.isNone then
     (setTimer s i.srtt0 i.rttvar0).bind fun s1 =>
     match s1.timer with
     | some t => if t < s1.now then onTimeout s1 i else .ok (s1, [])
